@@ -4,6 +4,7 @@ import Driver.Facet
 import Driver.Field
 import Driver.Keyword
 import Driver.Persist
+import Driver.QParser
 import Driver.Query
 import Driver.Reads
 import Driver.Widcode
@@ -15,6 +16,7 @@ def sessions : List (String × Sess) := [
   ("field", FieldS.sess),
   ("keyword", KeywordS.sess),
   ("persist", PersistS.sess),
+  ("qparser", QParserS.sess),
   ("query", QueryS.sess),
   ("reads", ReadsS.sess),
   ("widcode", WidcodeS.sess)
